@@ -12,6 +12,7 @@
 //   as <h> <v>                            new adouble                                              -> ok <geom>
 //   iv <h> : i0 i1 ..                     new intVector                                            -> ok iv=..
 //   f4 <h> : v0..v3    f23 <h> : v0..v5   new active FixedArray<double,true,4> / <double,true,2,3>
+//   f234 <h> : v0..v23   f2232 <h> : v0..v23   new active FixedArray<double,true,2,3,4> / <double,true,2,2,3,2> (index order)
 //   vw <h> <src> <ix> [<ix> [<ix> [<ix>]]] view; <ix> = i<k> (scalar index) | s<b>:<e>:<st> (stride(b,e,st), st of either sign)
 //                                         (rank 4: at most one scalar index)
 //   vT <h> <src>                          src.T() (rank 2)        vperm <h> <src> <p0> <p1> <p2> [<p3>]   src.permute (rank 3, 4)
@@ -105,6 +106,43 @@ static void geom_arr(std::ostringstream& os, Array<R, double, A>& a, Obj& o) {
 }
 
 
+// FixedArray of rank R: dims and strides as the object reports them, values in index order through data()[sum i*offset]
+template <int R, class F>
+static void geom_fixed(std::ostringstream& os, F& f) {
+  os << ";g=" << f.gradient_index() << ";o=0;d=";
+  for (int i = 0; i < R; ++i) os << (i ? "," : "") << f.dimension(i);
+  os << ";s=";
+  for (int i = 0; i < R; ++i) os << (i ? "," : "") << f.offset(i);
+  os << ";v=";
+  ExpressionSize<R> ix(0);
+  bool first = true;
+  for (;;) {
+    Index off = 0;
+    for (int i = 0; i < R; ++i) off += ix[i] * f.offset(i);
+    os << (first ? "" : ",") << num(f.data()[off]);
+    first = false;
+    int k = R - 1;
+    while (k >= 0 && ++ix[k] >= f.dimension(k)) { ix[k] = 0; --k; }
+    if (k < 0) break;
+  }
+}
+// fill in index order; returns the number of cells
+template <int R, class F>
+static long fill_fixed(F& f, const Words& w, size_t from) {
+  ExpressionSize<R> ix(0);
+  long n = 0;
+  for (;;) {
+    Index off = 0;
+    for (int i = 0; i < R; ++i) off += ix[i] * f.offset(i);
+    f.data()[off] = atof(w[from + n].c_str());
+    ++n;
+    int k = R - 1;
+    while (k >= 0 && ++ix[k] >= f.dimension(k)) { ix[k] = 0; --k; }
+    if (k < 0) break;
+  }
+  return n;
+}
+
 static std::string geom(long h) {
   Obj& o = pool[h];
   std::ostringstream os;
@@ -126,6 +164,8 @@ static std::string geom(long h) {
       os << ";g=" << f.gradient_index() << ";o=0;d=2,3;s=" << f.offset(0) << "," << f.offset(1) << ";v=";
       for (int i = 0; i < 2; ++i) for (int j = 0; j < 3; ++j) os << ((i || j) ? "," : "") << num(f.data()[i * f.offset(0) + j * f.offset(1)]);
       break; }
+    case K_FA234: geom_fixed<3>(os, asF234(o)); break;
+    case K_FA2232: geom_fixed<4>(os, asF2232(o)); break;
     case K_SCAL: {
       adouble& x = asS(o);
       os << ";g=" << x.gradient_index() << ";o=0;d=;s=;v=" << num(x.value());
@@ -216,6 +256,8 @@ static void destroy(Obj& o) {
       break;
     case K_FA4: delete &asF4(o); break;
     case K_FA23: delete &asF23(o); break;
+    case K_FA234: delete &asF234(o); break;
+    case K_FA2232: delete &asF2232(o); break;
     case K_SCAL: delete &asS(o); break;
     case K_IVEC: delete &asI(o); break;
   }
@@ -400,6 +442,13 @@ int main() {
         for (int i = 0; i < 2; ++i) for (int j = 0; j < 3; ++j) f->data()[i * f->offset(0) + j * f->offset(1)] = atof(w[3 + i * 3 + j].c_str());
         Obj o; o.kind = K_FA23; o.rank = 2; o.active = true; o.p = f; o.root = h; o.base = f->data(); o.n = 6; o.gbase = f->gradient_index(); pool[h] = o;
         std::cout << "ok " << geom(h) << "\n";
+      } else if ((w[0] == "f234" || w[0] == "f2232") && w.size() == 27 && w[2] == ":" && !get(w[1])) {
+        long h = atol(w[1].c_str());
+        Obj o; o.active = true; o.root = h; o.n = 24;
+        if (w[0] == "f234") { FA234* f = new FA234(); fill_fixed<3>(*f, w, 3); o.kind = K_FA234; o.rank = 3; o.p = f; o.base = f->data(); o.gbase = f->gradient_index(); }
+        else { FA2232* f = new FA2232(); fill_fixed<4>(*f, w, 3); o.kind = K_FA2232; o.rank = 4; o.p = f; o.base = f->data(); o.gbase = f->gradient_index(); }
+        pool[h] = o;
+        std::cout << "ok " << geom(h) << "\n";
       } else if (w[0] == "vw" && w.size() >= 4) {
         Obj* src = get(w[2]);
         std::vector<Ix> ix; bool ok = src && src->kind == K_ARR && !get(w[1]);
@@ -449,6 +498,8 @@ int main() {
               case K_ARR: if (o->rank == 1) AAD_REG((as<1, true>(*o))) else if (o->rank == 2) AAD_REG((as<2, true>(*o))) else if (o->rank == 3) AAD_REG((as<3, true>(*o))) else AAD_REG((as<4, true>(*o))) break;
               case K_FA4: AAD_REG(asF4(*o)) break;
               case K_FA23: AAD_REG(asF23(*o)) break;
+              case K_FA234: AAD_REG(asF234(*o)) break;
+              case K_FA2232: AAD_REG(asF2232(*o)) break;
               case K_SCAL: AAD_REG(asS(*o)) break;
               default: ok = false;
             }
@@ -467,7 +518,8 @@ int main() {
         std::string status = "ok";
         int r = 0;
         try {
-          r = exec_s9(w, c);            // rank-4 statements (same op words as the rank 1..3 menu): first
+          r = exec_s10(w, c);           // fx* statements on the rank-3 / rank-4 FixedArrays: before part 4 (rank 1..2)
+          if (r == 0) r = exec_s9(w, c);            // rank-4 statements (same op words as the rank 1..3 menu): first
           if (r == 0) r = exec_s1(w, c);
           if (r == 0) r = exec_s2(w, c);
           if (r == 0) r = exec_s3(w, c);
